@@ -119,6 +119,21 @@ func (fc *FnCtx) runAnchors(anchor, when string, pos token.Pos) {
 			fc.noteTrusted("ghost attributes of a freshly made channel (" + a.Anchor + "): " + a.Src)
 		}
 	}
+	for _, a := range fc.c.Interf {
+		if a.When == when && (a.Anchor == full || a.Anchor == anchor+"#*") {
+			fc.anchorsHit[a] = true
+			env := fc.anchorEnv()
+			ns := newNameSet()
+			var items []string
+			for _, it := range strings.Split(a.Src, ",") {
+				items = append(items, strings.TrimSpace(it))
+			}
+			if precise := fc.modifiesNames(env, items, ns); len(precise) > 0 {
+				userErr("interference: *p items are not supported (%s)", a.Src)
+			}
+			fc.cur = fc.cur.havocked(ns)
+		}
+	}
 	for _, u := range fc.c.GhostUpd {
 		if u.When == when && (u.Anchor == full || u.Anchor == anchor+"#*") {
 			fc.anchorsHit[u] = true
@@ -357,8 +372,27 @@ func (fc *FnCtx) havocForContract(callee *ssa.Function, c *Contract, env *Env, p
 	}
 	ns := newNameSet()
 	post := pre
+	precise := fc.modifiesNames(env, c.Modifies, ns)
+	post = pre.havocked(ns)
+	saved := fc.cur
+	fc.cur = post
+	for _, p := range precise {
+		elem := p.T.Underlying().(*types.Pointer).Elem()
+		if ptrIsThin(elem) {
+			// whole object: havoc its fields at this ref
+			fc.storeAt(post, elem, p.L[0], fc.freshVal("mod", elem))
+		} else {
+			fc.storeFat(post, elem, fatOf(p), fc.freshVal("mod", elem))
+		}
+	}
+	fc.cur = saved
+	return post
+}
+
+// modifiesNames turns modifies items into state names (ns) and returns the values of the "*p" items.
+func (fc *FnCtx) modifiesNames(env *Env, items []string, ns *NameSet) []Val {
 	var precise []Val
-	for _, item := range c.Modifies {
+	for _, item := range items {
 		switch {
 		case item == "bytes":
 			ns.Add("E|uint8|0")
@@ -389,24 +423,12 @@ func (fc *FnCtx) havocForContract(callee *ssa.Function, c *Contract, env *Env, p
 			for k := range layout(t) {
 				ns.Add(fmt.Sprintf("E|%s|%d", typeKey(t), k))
 			}
+		case item == "nothing":
 		default:
 			fc.eng.modifiesItemNames(env, item, ns)
 		}
 	}
-	post = pre.havocked(ns)
-	saved := fc.cur
-	fc.cur = post
-	for _, p := range precise {
-		elem := p.T.Underlying().(*types.Pointer).Elem()
-		if ptrIsThin(elem) {
-			// whole object: havoc its fields at this ref
-			fc.storeAt(post, elem, p.L[0], fc.freshVal("mod", elem))
-		} else {
-			fc.storeFat(post, elem, fatOf(p), fc.freshVal("mod", elem))
-		}
-	}
-	fc.cur = saved
-	return post
+	return precise
 }
 
 // modifiesItemNames: "p.Field" or "T.Field" -> heap array names of that field (all objects of the type).
